@@ -1,6 +1,7 @@
 package main
 
 import (
+	"strings"
 	"time"
 	"fmt"
 	"reflect"
@@ -324,6 +325,57 @@ func execOp(s *Sexp) string {
 		return execJRT(s)
 	case "jdeep":
 		return execJDeep(s)
+	case "deschost":
+		// (deschost cfg T tag xDATA): arbitrary bytes through T's Descriptor
+		c, err := parseCtx(s)
+		if err != nil {
+			return "bad-op " + err.Error()
+		}
+		data, err := unhx(arg(4))
+		if err != nil {
+			return "bad-op"
+		}
+		return guard(func() string {
+			cd, err := c.codec()
+			if err != nil {
+				return "builderr"
+			}
+			d := cd.Descriptor()
+			var rec recOut
+			if err := d.Read(&rec, data); err != nil {
+				return "err"
+			}
+			return "ok " + strings.Join(rec.calls, " ")
+		})
+	case "jhost", "jhostdesc":
+		// (jhost obj|arr xDATA): arbitrary bytes into map[string]any / []any; jhostdesc: through the codec's Descriptor
+		data, err := unhx(arg(2))
+		if err != nil {
+			return "bad-op"
+		}
+		p := jsonInstance()
+		return guard(func() string {
+			if arg(1) == "obj" {
+				if s.head() == "jhostdesc" {
+					c, _ := p.CodecForType(reflect.TypeOf(map[string]interface{}(nil)))
+					return descBoth(c, data)
+				}
+				var back map[string]interface{}
+				if err := p.Unmarshal(data, &back); err != nil {
+					return "err"
+				}
+				return "ok " + showJ(back)
+			}
+			if s.head() == "jhostdesc" {
+				c, _ := p.CodecForType(reflect.TypeOf([]interface{}(nil)))
+				return descBoth(c, data)
+			}
+			var back []interface{}
+			if err := p.Unmarshal(data, &back); err != nil {
+				return "err"
+			}
+			return "ok " + showJ(back)
+		})
 	case "buildself":
 		// (buildself xNAME): CodecForType on a static defined type that refers to itself
 		// through pointers/slices only (no finite TyDef, so outside the model)
